@@ -465,7 +465,7 @@ package jet
 //@   requires RtOK(st)
 //@   modifies @Interp
 //@   ensures [try-leaves-no-trace] SameS(st)
-//@   callsite (*Runtime).executeList 0 requires [try-body-renders-into-a-fresh-buffer] {C13,C01} st.escapeeWriter.Writer == iface(caller.buf, "*bytes.Buffer") && fresh(caller.buf) && st.escapeeWriter == old(st.escapeeWriter)
+//@   callsite (*Runtime).executeList 1 requires [try-body-renders-into-a-fresh-buffer] {C13,C01} st.escapeeWriter.Writer == iface(caller.buf, "*bytes.Buffer") && fresh(caller.buf) && st.escapeeWriter == old(st.escapeeWriter)
 //@   callsite io.Copy 0 requires [buffer-copied-only-after-success] {C13} dst == old(st.escapeeWriter.Writer) && src == iface(caller.buf, "*bytes.Buffer") && !panicking()
 //@   callsite io.Copy count 1
 
